@@ -6,13 +6,9 @@ from . import c02, c03, c04, c05, c06, c07, c08
 
 MODULE = "Genql.Properties.C12"
 LEAN_TARGETS = [MODULE]
-THEOREMS = [
-    "Genql.C12.valueOf_plain",
-    "Genql.C12.select_row_plain",
-    "Genql.C12.result_no_marker",
-    "Genql.C12.deterministic",
-    "Genql.C12.group_order_oracle_free",
-]
+THEOREMS = ["Genql.C12." + t for t in [
+    "valueOf_plain", "tuple_plain", "daterange_plain", "array_plain", "result_no_marker", "deterministic",
+    "group_order_oracle_free", "join_multiset_deterministic"]]
 TRUSTED = ["Go reflection type walk in the runner (every value must be nil/bool/number/string/[]any/map[string]any)",
            "encoding of results as JSON by the runner (round trip)"]
 RULE = ("every generator of C02-C08 (all expression forms, joins, groups, unions, CTEs, sub-queries, nested sources) plus probes "
